@@ -419,13 +419,17 @@ Proof.
   - cbn [erase reify]. rewrite !erase_go, !reify_go, !strip_inst. f_equal.
     change (sel_of info_mo) with SAll. rewrite !strip_entries_cons. cbn [selected is_fields].
     rewrite id_invisible. cbn [app]. apply (strip_entries_reify_erase SAll). exact IH.
-  - cbn [erase reify]. rewrite !strip_inst. f_equal.
-    change (sel_of info_mo) with SAll.
-    destruct (String.eqb ln rn); rewrite !strip_entries_cons; cbn [selected is_fields];
-      rewrite id_invisible; cbn [app]; rewrite ?IHl, ?IHr; reflexivity.
-  - cbn [erase reify]. rewrite !strip_inst. f_equal.
-    change (sel_of info_mo) with SAll. rewrite !strip_entries_cons. cbn [selected is_fields].
-    rewrite id_invisible. cbn [app]. rewrite IHa. reflexivity.
+  - cbn [erase reify]. destruct compound_idf as [fs|].
+    + rewrite !strip_inst. f_equal. rewrite !strip_entries_cons, IHl, IHr, id_invisible. reflexivity.
+    + rewrite !strip_inst. f_equal.
+      change (sel_of info_mo) with SAll.
+      destruct (String.eqb ln rn); rewrite !strip_entries_cons; cbn [selected is_fields];
+        rewrite id_invisible; cbn [app]; rewrite ?IHl, ?IHr; reflexivity.
+  - cbn [erase reify]. destruct modified_idf as [fs|].
+    + rewrite !strip_inst. f_equal. rewrite !strip_entries_cons, IHa, id_invisible. reflexivity.
+    + rewrite !strip_inst. f_equal.
+      change (sel_of info_mo) with SAll. rewrite !strip_entries_cons. cbn [selected is_fields].
+      rewrite id_invisible. cbn [app]. rewrite IHa. reflexivity.
   - cbn [erase reify]. rewrite !erase_go, !reify_go, !strip_inst. f_equal.
     change (sel_of info_mo) with SAll. rewrite !strip_entries_cons. cbn [selected is_fields].
     rewrite id_invisible, label_invisible. cbn [app].
